@@ -1669,8 +1669,12 @@ class CollapseEmptyBraces(Minimize):
                 testf.write(modified)
                 testf.write(iterator.testcase.after)
 
-            # Re-parse the modified testcase
+            # Re-split the modified region. Do not re-load the whole file: the text
+            # outside the DDBEGIN/DDEND region must stay protected as it is, and
+            # re-parsing can move the region's boundaries.
             new_tc = iterator.testcase.copy()
-            new_tc.load(iterator.testcase.filename)
+            new_tc.parts = []
+            new_tc.reducible = []
+            new_tc.split_parts(modified)
 
             yield from iterator.try_testcase(new_tc, "Collapse empty braces")
